@@ -818,6 +818,17 @@ fn c04_abandoned_entries_indexed(sim: &Sim, fork: u64, new_id: usize) -> bool {
         Some(c) => c,
         None => return false,
     };
+    let registered: Vec<(u8, Vec<u8>)> = c
+        .storage
+        .get_filter_scripts()
+        .iter()
+        .map(|ss| {
+            (
+                if matches!(ss.script_type, crate::storage::ScriptType::Lock) { 96u8 } else { 128u8 },
+                crate::storage::extract_raw_data(&ss.script),
+            )
+        })
+        .collect();
     for prefix in [96u8, 128u8] {
         let start = [prefix];
         let mode = IteratorMode::From(&start[..], Direction::Forward);
@@ -826,6 +837,11 @@ fn c04_abandoned_entries_indexed(sim: &Sim, fork: u64, new_id: usize) -> bool {
                 break;
             }
             if key.len() < 18 || value.len() != 32 {
+                continue;
+            }
+            // the property speaks about registered scripts: what a de-registered script left
+            // behind is not looked at (nor touched by a rollback)
+            if !registered.iter().any(|(p, raw)| *p == prefix && key.len() == 1 + raw.len() + 17 && key[1..].starts_with(raw)) {
                 continue;
             }
             let n = u64::from_be_bytes(key[key.len() - 17..key.len() - 9].try_into().unwrap());
